@@ -265,7 +265,7 @@ class Gen:
             t["con"] = r.choice(SIZE_CONS)
         t["tag"] = self.maybe_tag(default)
         c = t.get("con")
-        if k == "int" and c and c[1] is not None and 2**31 <= c[1] < 2**32 and t["tag"] and \
+        if k == "int" and c and c[0] is not None and c[0] >= 0 and (c[1] is None or c[1] >= 2**31) and t["tag"] and \
            (t["tag"][2] == "EXPLICIT" or (t["tag"][2] is None and default == "EXPLICIT")):
             # known finding C02-explicit-tag-unsigned-member (double tag); exercised by the special module only
             t["tag"] = None
